@@ -25,8 +25,12 @@ INVALID = {
     "obj": b"{}",
     "arr": b"[]",
     "hdronly": None,       # filled per kind: a correct header and nothing else
+    "payloadlist": None,   # filled per kind: a correct header and a payload of the wrong type (a list)
+    "payloadstr": None,    # ... (a string)
+    "null": b"null",
+    "num": b"12",
 }
-WRONG_SHAPE = ("obj", "arr", "hdronly")
+WRONG_SHAPE = ("obj", "arr", "hdronly", "payloadlist", "payloadstr", "null", "num")
 HEADER_TYPE = {"info": "productmd.composeinfo", "images": "productmd.images", "rpms": "productmd.rpms", "modules": "productmd.modules"}
 
 
@@ -51,6 +55,8 @@ def content_bytes(kind, what, salt):
         return obj.dumps().encode("utf-8")
     if what == "hdronly":
         return json.dumps({"header": {"version": "1.2", "type": HEADER_TYPE[kind]}}).encode()
+    if what in ("payloadlist", "payloadstr"):
+        return json.dumps({"header": {"version": "1.2", "type": HEADER_TYPE[kind]}, "payload": [] if what == "payloadlist" else "x"}).encode()
     return INVALID[what]
 
 
@@ -97,8 +103,8 @@ class C20(Prop):
             "oracle: resolved layout, file chosen, dumps() equal to a direct load, `is` identity and one load per kind, RuntimeError "
             "naming the location; non-trivial = distinct tree")
     assumptions = ["POSIX file system: exists/listdir ignore a trailing slash on a directory (hypothesis of C20_slash; exercised on real dirs)",
-                   "HTTP(S)/FTP locations are not modelled", "'undecodable' in the theorems = ValueError during load; other exception "
-                   "classes propagate (finding F20)"]
+                   "HTTP(S)/FTP locations are not modelled", "'undecodable' = an exception of a class named in the except clause of _load_metadata (read from the source: "
+                   "ValueError, KeyError, TypeError, AttributeError) during load; other classes (OSError) propagate"]
     partial = {}
 
     def gen(self):
@@ -374,6 +380,6 @@ PROP = C20()
 
 MANIFEST = dict(
     technique="Lean 4 proofs over an abstract world (exists / listdir order / load outcome universally quantified) + state machine logging loads; candidate names, probe names and caching shape regenerated from the AST; differential run on real directory trees with the real os.listdir orders",
-    text="C20_compose_preferred / C20_direct / C20_legacy (for EVERY listing order the chosen sub-directory is the first listed one that has `metadata`) / C20_slash (same files with a trailing slash; C20_slash_tree: with no hypothesis on the world when it is a set of normalised paths) / C20_names + C20_current_before_legacy (current file name wins over the legacy one) / C20_equals_direct_load / C20_cached (over any further access sequence the same object, never loaded again) / C20_errors_missing, _undecodable (RuntimeError naming compose path resp. file), _other_propagate.",
-    note="'Undecodable' is ValueError during load (JSON syntax, bytes, wrong metadata type, validators). Valid JSON of the wrong shape raises KeyError/TypeError unchanged (finding F20). Direct metadata/ together with a sub-directory that has metadata/ resolves to the sub-directory (precedence not fixed by the property; oracle accepts either). URLs are not modelled.",
+    text="C20_compose_preferred / C20_direct / C20_legacy (for EVERY listing order the chosen sub-directory is the first listed one that has `metadata`) / C20_slash (same files with a trailing slash; C20_slash_tree: with no hypothesis on the world when it is a set of normalised paths) / C20_names + C20_current_before_legacy (current file name wins over the legacy one) / C20_equals_direct_load / C20_cached (over any further access sequence the same object, never loaded again) / C20_errors_missing, C20_wrapped_classes (decide on the except clause read from the source), _undecodable (RuntimeError naming compose path resp. file, for ValueError/KeyError/TypeError/AttributeError), _other_propagate.",
+    note="'Undecodable' is an exception of a class in the except clause of _load_metadata, read from the source (ValueError: JSON syntax, bytes, wrong metadata type, validators; KeyError/TypeError/AttributeError: valid JSON of the wrong shape - F20, fixed). Direct metadata/ together with a sub-directory that has metadata/ resolves to the sub-directory (precedence not fixed by the property; oracle accepts either). URLs are not modelled.",
     ref="7/C20")
